@@ -1,7 +1,7 @@
 (* C08 proofs, part 2: equal attribute maps hash equally.
    GetHashForAttributeMap folds hash_combine over the sorted pairs; std::hash<std::string> and std::hash<double> are arbitrary
-   functions, the latter assumed to respect operator== of double (it must give +0.0 and -0.0 the same hash; libstdc++ returns 0
-   for both).  Consequently FilteredOrderedAttributeMap::operator== (hash first, then the map) is just the map comparison. *)
+   functions, the latter assumed to respect the value comparison of doubles (it must give +0.0 and -0.0 the same hash - libstdc++
+   returns 0 for both - and GetHash<double> hands it the quiet NaN for every NaN).  Consequently FilteredOrderedAttributeMap::operator== (hash first, then the map) is just the map comparison. *)
 From V Require Import C08.Spec C08.ProofsAttrs.
 From Coq Require Import Lia.
 Local Open Scope Z_scope.
@@ -46,12 +46,10 @@ Section HashProofs.
     rewrite (equal_maps_equal_hash_lemma a b E), Z.eqb_refl. reflexivity.
   Qed.
 
-  (* in terms of measurements: equal sets (no NaN values) hash equally *)
-  Theorem equal_sets_equal_hash f a b : kvs_nan a = false -> sets_equal f a b = true ->
+  (* in terms of measurements: equal sets hash equally *)
+  Theorem equal_sets_equal_hash f a b : sets_equal f a b = true ->
     hash_attrs h_str h_dbl (mk_attrs f a) = hash_attrs h_str h_dbl (mk_attrs f b).
-  Proof.
-    intros Hn He. apply equal_maps_equal_hash_lemma. rewrite attrs_eqb_iff_sets_equal; assumption.
-  Qed.
+  Proof. intros He. apply equal_maps_equal_hash_lemma. rewrite attrs_eqb_iff_sets_equal. assumption. Qed.
 End HashProofs.
 
 (* non-vacuity: a hash function with the required property, and two different writings of one set *)
